@@ -1,5 +1,7 @@
 import OW.Proofs.Storage
+import OW.Proofs.StorageNoPanic
 import OW.Proofs.StorageExample
+import OW.Proofs.StorageExample2
 /-!
 C13 — reservoir storage closes its water balance and respects its release rules.
 
@@ -17,6 +19,23 @@ Per timestep (`step`) and, through `Chain`, for every timestep of a whole run (`
 * `spill_only_above_full` a sub-step spills only if its updated volume exceeds the full-supply volume, never more than the
                           excess over it
 * `terminates`            enough fuel always exists (6 s floor of the sub-step)
+* `trace_tie`             the ghost trace IS what the reported series are made of: sub-steps chained V → … → V' (reported volume),
+                          positive lengths summing to Δt, `outflow·Δt = Σ (avgOutflow·sub + excess)`
+* `reported_outflow_between`, `reported_outflow_eq_demand`
+                          corollaries on the REPORTED outflow: between the lowest minimum release and
+                          max(highest maximum release, 2·spill capacity); = demand when the demand lies between the curves and
+                          nothing spills
+* `run_ok_of`, `run_ok_of_release_limited`, `run_ok_of_net_gain`, `run_ok_of_driver_fuel`
+                          WHEN a run returns `.ok` (all the theorems above are conditional on that): well-formed tables, V₀ ≥ 0,
+                          Δt > 0 and the 6 s safety `Safe` of every timestep's inputs
+* `draw_down_panics`      … and when it does not: a net loss at the start volume that drains it within min(Δt, 6 s) ends the run
+                          in the code's 6 s-floor panic (two monotone tables inside the property's quantifier as examples)
+
+The second evaluation point of the release rule in `release_between` (`x.acc.trialVol`) is the start volume advanced with the
+release of the START volume (`SubStepOK.trialVol_eq`): a trial volume, in general not a volume the reservoir ever holds.
+At ℝ the test `if volume < 0 { panic }` after the update (Kernels/Storage.lean `outerBody`) is dead: the updated volume equals the
+last trial volume, which the trial loop accepted as non-negative (`outerBody_err_fuel`); in float64 the two expressions round
+differently, the correspondence runs cover that branch.
 -/
 namespace OW.Props.C13
 open OW OW.Kernels.Storage OW.Proofs.Storage
@@ -55,12 +74,18 @@ structure SubStepOK (t : Tables ℝ) (inflow demand netFlux : ℝ) (x : SubStep 
   relBefore : releaseRate t demand x.volBefore = .ok x.acc.estOutflow
   relAfter : releaseRate t demand x.acc.trialVol = .ok x.acc.estOutflowAfter
   avg : x.acc.avgOutflow = (x.acc.estOutflowAfter + x.acc.estOutflow) / 2
+  /-- the second evaluation point of the release rule: the start volume advanced over the sub-step with the release of the START
+  volume (`estOutflow`), not with the accepted average — a trial volume, in general NOT a volume the reservoir holds
+  (the volume it holds after the update is `volUpdated`, computed with `avgOutflow`) -/
+  trialVol_eq : x.acc.trialVol = x.volBefore + ((inflow - x.acc.estOutflow) + netFlux * x.acc.avgArea) * x.acc.sub
   upd : x.volUpdated = x.volBefore + (inflow + netFlux * x.acc.avgArea - x.acc.avgOutflow) * x.acc.sub
   upd_nonneg : 0 ≤ x.volUpdated
   excess_nonneg : 0 ≤ x.excess
   after : x.volAfter = x.volUpdated - x.excess
   spill_above : x.excess ≠ 0 → t.volCurveMax < x.volUpdated
   spill_le : t.volCurveMax < x.volUpdated → x.excess ≤ x.volUpdated - t.volCurveMax
+  /-- the spill of a sub-step is at most (2·spill capacity − release)⁺ · sub-step (the over-topping ratio is capped at 2) -/
+  spill_rate : 0 ≤ x.acc.sub → 0 ≤ t.maxSpill → x.excess ≤ max (2 * t.maxSpill - x.acc.avgOutflow) 0 * x.acc.sub
 
 theorem trace_ok (t : Tables ℝ) (fo fi : Nat) (inflow demand rps pps netFlux : ℝ) (s r : Loop ℝ)
     (h : outer t true fi inflow demand rps pps netFlux fo s = .ok r)
@@ -73,7 +98,8 @@ theorem trace_ok (t : Tables ℝ) (fo fi : Nat) (inflow demand rps pps netFlux :
   simp only [if_true, List.mem_cons] at hx
   rcases hx with rfl | hx
   · obtain ⟨p1, p2, p3, p4⟩ := spill_spec t (updated inflow netFlux s a) a.avgOutflow a.sub
-    exact ⟨b.est, b.trial.after, b.trial.avg, rfl, b.upd_nonneg, p1, p2, p3, p4⟩
+    exact ⟨b.est, b.trial.after, b.trial.avg, b.trial.trialVol_eq, rfl, b.upd_nonneg, p1, p2, p3, p4,
+      fun h1 h2 => spill_le_rate t (updated inflow netFlux s a) a.avgOutflow a.sub h1 h2⟩
   · exact hP x hx
 
 /-! ### per-timestep theorems -/
@@ -156,6 +182,179 @@ theorem step_trace_ok (t : Tables ℝ) (fo fi : Nat) (deltaT volume : ℝ) (tags
   intro x hx
   rw [htr, List.mem_reverse] at hx
   exact this x hx
+
+/-! ### the tie between the ghost trace and the REPORTED series
+
+`release_between` and `spill_only_above_full` speak about the sub-steps recorded in the ghost trace. What ties the trace to
+what the model reports: the sub-steps are chained from the volume `V` the timestep starts at to the volume `V'` it reports
+(`Linked`), their lengths are positive and sum to Δt, and the reported outflow rate times Δt is the sum over the sub-steps of
+(average release × sub-step length + spilled volume). -/
+
+/-- consecutive sub-steps: the first starts at `v`, each starts at the volume the previous one left, the last leaves `v'` -/
+def Linked : ℝ → List (SubStep ℝ) → ℝ → Prop
+  | v, [], v' => v' = v
+  | v, x :: xs, v' => x.volBefore = v ∧ Linked x.volAfter xs v'
+
+theorem linked_snoc (x : SubStep ℝ) (w : ℝ) (hx : x.volBefore = w) :
+    ∀ (xs : List (SubStep ℝ)) (v : ℝ), Linked v xs w → Linked v (xs ++ [x]) x.volAfter := by
+  intro xs
+  induction xs with
+  | nil =>
+    intro v h
+    simp only [Linked] at h
+    subst h
+    exact ⟨hx, rfl⟩
+  | cons y ys ih =>
+    intro v h
+    obtain ⟨h1, h2⟩ := h
+    exact ⟨h1, ih _ h2⟩
+
+/-- volume that leaves the storage over the recorded sub-steps: Σ (average release · sub-step + spilled volume) -/
+def released (xs : List (SubStep ℝ)) : ℝ := (xs.map (fun x => x.acc.avgOutflow * x.acc.sub + x.excess)).sum
+
+/-- **trace tie (one timestep).** The recorded sub-steps are chained from the volume before the timestep to the REPORTED volume,
+every sub-step has positive length, and the REPORTED outflow satisfies `outflow·Δt = Σ (avgOutflow·sub + excess)`. -/
+theorem step_trace_tie (t : Tables ℝ) (fo fi : Nat) (deltaT volume : ℝ) (tags : List String)
+    (rainfall pet inflow demand : ℝ) (v' : ℝ) (tags' : List String) (o : StepOut ℝ) (hdt : 0 < deltaT)
+    (h : step t true fo fi deltaT volume tags (rainfall, pet, inflow, demand) = .ok (v', tags', o)) :
+    Linked volume o.trace o.volume ∧ (∀ x ∈ o.trace, 0 < x.acc.sub) ∧ o.outflow * deltaT = released o.trace := by
+  obtain ⟨r, hO, -, hv, hq, -, -, htr⟩ := step_ok _ _ _ _ _ _ _ _ _ _ _ _ _ _ h
+  have key := outer_inv t true fi inflow demand _ _ _
+    (fun s => Linked volume s.trace.reverse s.volume ∧ (∀ x ∈ s.trace, 0 < x.acc.sub) ∧ 0 < s.subtimestep ∧
+      s.outflowVolume = released s.trace) ?_ fo _ r hO
+    (by simp [loop0, Linked, released, hdt])
+  · obtain ⟨⟨hl, hp, -, ho⟩, -⟩ := key
+    refine ⟨by rw [htr, hv]; exact hl, ?_, ?_⟩
+    · intro x hx
+      rw [htr, List.mem_reverse] at hx
+      exact hp x hx
+    · rw [hq, div_mul_cancel₀ _ (ne_of_gt hdt), ho, htr]
+      unfold released
+      rw [List.map_reverse, List.sum_reverse]
+  · intro s s' a hpos hP b
+    obtain ⟨hl, hp, hs, ho⟩ := hP
+    have hsub0 : 0 < min s.timeRemaining (s.subtimestep * 2) := lt_min hpos (by linarith)
+    have hsub : 0 < a.sub := lt_of_lt_of_le (lt_min hsub0 (by norm_num)) b.trial.sub_ge
+    rw [b.trace]
+    simp only [if_true, List.reverse_cons]
+    refine ⟨?_, ?_, by rw [b.sub]; exact hsub, ?_⟩
+    · rw [b.vol]
+      exact linked_snoc ⟨s.volume, a, _, _, _⟩ s.volume rfl _ _ hl
+    · intro x hx
+      rcases List.mem_cons.mp hx with rfl | hx
+      · exact hsub
+      · exact hp x hx
+    · rw [b.out, ho]
+      unfold released
+      simp only [List.map_cons, List.sum_cons]
+      ring
+
+theorem released_bounds (m U : ℝ) : ∀ (xs : List (SubStep ℝ)),
+    (∀ x ∈ xs, m * x.acc.sub ≤ x.acc.avgOutflow * x.acc.sub + x.excess ∧
+      x.acc.avgOutflow * x.acc.sub + x.excess ≤ U * x.acc.sub) →
+    m * (xs.map (·.acc.sub)).sum ≤ released xs ∧ released xs ≤ U * (xs.map (·.acc.sub)).sum := by
+  intro xs
+  induction xs with
+  | nil => intro _; simp [released]
+  | cons x xs ih =>
+    intro h
+    obtain ⟨a1, a2⟩ := h x (List.mem_cons_self ..)
+    obtain ⟨b1, b2⟩ := ih (fun y hy => h y (List.mem_cons_of_mem _ hy))
+    unfold released at b1 b2 ⊢
+    simp only [List.map_cons, List.sum_cons, mul_add]
+    constructor <;> linarith
+
+/-- one sub-step's contribution to the reported outflow, bounded by the bounds of its average release and the spill capacity -/
+theorem substep_released_bounds (t : Tables ℝ) (inflow demand netFlux : ℝ) (x : SubStep ℝ)
+    (hx : SubStepOK t inflow demand netFlux x) (hsub : 0 < x.acc.sub) (hS : 0 ≤ t.maxSpill) (m M : ℝ)
+    (hm : m ≤ x.acc.avgOutflow) (hM : x.acc.avgOutflow ≤ M) :
+    m * x.acc.sub ≤ x.acc.avgOutflow * x.acc.sub + x.excess ∧
+    x.acc.avgOutflow * x.acc.sub + x.excess ≤ max M (2 * t.maxSpill) * x.acc.sub ∧
+    (x.excess = 0 → x.acc.avgOutflow * x.acc.sub + x.excess ≤ M * x.acc.sub) := by
+  have e0 := hx.excess_nonneg
+  have e1 := hx.spill_rate hsub.le hS
+  have l1 : m * x.acc.sub ≤ x.acc.avgOutflow * x.acc.sub := mul_le_mul_of_nonneg_right hm hsub.le
+  have l2 : x.acc.avgOutflow * x.acc.sub ≤ M * x.acc.sub := mul_le_mul_of_nonneg_right hM hsub.le
+  have l3 : M * x.acc.sub ≤ max M (2 * t.maxSpill) * x.acc.sub := mul_le_mul_of_nonneg_right (le_max_left _ _) hsub.le
+  have l4 : 2 * t.maxSpill * x.acc.sub ≤ max M (2 * t.maxSpill) * x.acc.sub :=
+    mul_le_mul_of_nonneg_right (le_max_right _ _) hsub.le
+  refine ⟨by linarith, ?_, fun h => by rw [h]; linarith⟩
+  rcases le_total (2 * t.maxSpill - x.acc.avgOutflow) 0 with c | c
+  · rw [max_eq_right c, zero_mul] at e1
+    linarith
+  · rw [max_eq_left c] at e1
+    have : (2 * t.maxSpill - x.acc.avgOutflow) * x.acc.sub = 2 * t.maxSpill * x.acc.sub - x.acc.avgOutflow * x.acc.sub := by ring
+    linarith
+
+/-- global bounds of the release rule from global bounds of the two release curves -/
+theorem releaseRate_range (t : Tables ℝ) (ht : Total t) (m M : ℝ)
+    (hmin : ∀ v y, cappedPiecewise t v t.minRelease = .ok y → m ≤ y)
+    (hmax : ∀ v y, cappedPiecewise t v t.maxRelease = .ok y → y ≤ M)
+    (hord : ∀ v y₁ y₂, cappedPiecewise t v t.minRelease = .ok y₁ → cappedPiecewise t v t.maxRelease = .ok y₂ → y₁ ≤ y₂)
+    (d v q : ℝ) (h : releaseRate t d v = .ok q) : m ≤ q ∧ q ≤ M := by
+  obtain ⟨y₁, h1⟩ := ht.minRelease v
+  obtain ⟨y₂, h2⟩ := ht.maxRelease v
+  obtain ⟨a, b, -⟩ := releaseRate_between t d v q y₁ y₂ h1 h2 (hord v y₁ y₂ h1 h2) h
+  exact ⟨le_trans (hmin v y₁ h1) a, le_trans b (hmax v y₂ h2)⟩
+
+/-- **reported outflow between the release curves (one timestep).** If the minimum-release curve never evaluates below `m`,
+the maximum-release curve never above `M`, the curves are ordered and the spill capacity is non-negative, then the REPORTED
+outflow of the timestep satisfies `m ≤ outflow ≤ max M (2·maxSpill)`, and `outflow ≤ M` when no sub-step spilled. -/
+theorem step_reported_outflow_between (t : Tables ℝ) (ht : Total t) (fo fi : Nat) (deltaT volume : ℝ) (tags : List String)
+    (rainfall pet inflow demand : ℝ) (v' : ℝ) (tags' : List String) (o : StepOut ℝ) (hdt : 0 < deltaT)
+    (hS : 0 ≤ t.maxSpill) (m M : ℝ)
+    (hmin : ∀ v y, cappedPiecewise t v t.minRelease = .ok y → m ≤ y)
+    (hmax : ∀ v y, cappedPiecewise t v t.maxRelease = .ok y → y ≤ M)
+    (hord : ∀ v y₁ y₂, cappedPiecewise t v t.minRelease = .ok y₁ → cappedPiecewise t v t.maxRelease = .ok y₂ → y₁ ≤ y₂)
+    (h : step t true fo fi deltaT volume tags (rainfall, pet, inflow, demand) = .ok (v', tags', o)) :
+    m ≤ o.outflow ∧ o.outflow ≤ max M (2 * t.maxSpill) ∧ ((∀ x ∈ o.trace, x.excess = 0) → o.outflow ≤ M) := by
+  obtain ⟨-, hpos, htie⟩ := step_trace_tie _ _ _ _ _ _ _ _ _ _ _ _ _ hdt h
+  have hsum := step_sub_steps_sum _ _ _ _ _ _ _ _ _ _ _ _ _ hdt.le h
+  have hok := step_trace_ok _ _ _ _ _ _ _ _ _ _ _ _ _ h
+  have hb : ∀ x ∈ o.trace, m ≤ x.acc.avgOutflow ∧ x.acc.avgOutflow ≤ M := by
+    intro x hx
+    have sx := hok x hx
+    obtain ⟨a1, a2⟩ := releaseRate_range t ht m M hmin hmax hord _ _ _ sx.relBefore
+    obtain ⟨b1, b2⟩ := releaseRate_range t ht m M hmin hmax hord _ _ _ sx.relAfter
+    rw [sx.avg]
+    constructor <;> linarith
+  have k1 := released_bounds m (max M (2 * t.maxSpill)) o.trace (fun x hx => by
+    obtain ⟨c1, c2, -⟩ := substep_released_bounds t inflow demand _ x (hok x hx) (hpos x hx) hS m M (hb x hx).1 (hb x hx).2
+    exact ⟨c1, c2⟩)
+  rw [hsum, ← htie] at k1
+  refine ⟨le_of_mul_le_mul_right (by linarith [k1.1]) hdt, le_of_mul_le_mul_right (by linarith [k1.2]) hdt, fun h0 => ?_⟩
+  have k2 := released_bounds m M o.trace (fun x hx => by
+    obtain ⟨c1, -, c3⟩ := substep_released_bounds t inflow demand _ x (hok x hx) (hpos x hx) hS m M (hb x hx).1 (hb x hx).2
+    exact ⟨c1, c3 (h0 x hx)⟩)
+  rw [hsum, ← htie] at k2
+  exact le_of_mul_le_mul_right (by linarith [k2.2]) hdt
+
+/-- **reported outflow = demand (one timestep).** If the demand lies between the two release curves wherever they are
+evaluated and no sub-step spills, the REPORTED outflow of the timestep is the demand. -/
+theorem step_reported_outflow_eq_demand (t : Tables ℝ) (ht : Total t) (fo fi : Nat) (deltaT volume : ℝ) (tags : List String)
+    (rainfall pet inflow demand : ℝ) (v' : ℝ) (tags' : List String) (o : StepOut ℝ) (hdt : 0 < deltaT)
+    (hmin : ∀ v y, cappedPiecewise t v t.minRelease = .ok y → y ≤ demand)
+    (hmax : ∀ v y, cappedPiecewise t v t.maxRelease = .ok y → demand ≤ y)
+    (h : step t true fo fi deltaT volume tags (rainfall, pet, inflow, demand) = .ok (v', tags', o))
+    (h0 : ∀ x ∈ o.trace, x.excess = 0) : o.outflow = demand := by
+  obtain ⟨-, hpos, htie⟩ := step_trace_tie _ _ _ _ _ _ _ _ _ _ _ _ _ hdt h
+  have hsum := step_sub_steps_sum _ _ _ _ _ _ _ _ _ _ _ _ _ hdt.le h
+  have hok := step_trace_ok _ _ _ _ _ _ _ _ _ _ _ _ _ h
+  have hrel : ∀ v q, releaseRate t demand v = .ok q → q = demand := by
+    intro v q hq
+    obtain ⟨y₁, h1⟩ := ht.minRelease v
+    obtain ⟨y₂, h2⟩ := ht.maxRelease v
+    have o1 := hmin v y₁ h1
+    have o2 := hmax v y₂ h2
+    exact (releaseRate_between t demand v q y₁ y₂ h1 h2 (le_trans o1 o2) hq).2.2 o1 o2
+  have k := released_bounds demand demand o.trace (fun x hx => by
+    have sx := hok x hx
+    have e : x.acc.avgOutflow = demand := by
+      rw [sx.avg, hrel _ _ sx.relBefore, hrel _ _ sx.relAfter]; ring
+    rw [e, h0 x hx]
+    constructor <;> linarith)
+  rw [hsum, ← htie] at k
+  exact le_antisymm (le_of_mul_le_mul_right k.2 hdt) (le_of_mul_le_mul_right k.1 hdt)
 
 /-- **release_between** for one recorded sub-step: whatever the two release curves evaluate to at the start volume
 (`m₁ ≤ M₁`) and at the trial end volume (`m₂ ≤ M₂`) of the sub-step, the accepted average release lies between the smaller
@@ -349,6 +548,58 @@ theorem spill_only_above_full (t : Tables ℝ) (fo fi : Nat) (deltaT v0 : ℝ) (
   intro x hx
   exact substep_spill_only_above_full t inflow demand _ x (step_trace_ok _ _ _ _ _ _ _ _ _ _ _ _ _ hs x hx)
 
+/-- **trace_tie.** In every timestep of a successful run the recorded sub-steps are chained from the volume `V` before the
+timestep to the REPORTED volume `V'` (first `volBefore = V`, each `volBefore` = the previous `volAfter`, last `volAfter = V'`),
+have positive lengths summing to Δt, and the REPORTED outflow is `outflow·Δt = Σ (avgOutflow·sub + excess)`: the statements
+`release_between` / `spill_only_above_full` about the trace are statements about the quantities the reported series are made of. -/
+theorem trace_tie (t : Tables ℝ) (fo fi : Nat) (deltaT v0 : ℝ) (ins : List (StepIn ℝ)) (r : RunOut ℝ)
+    (hdt : 0 < deltaT) (h : run t true fo fi deltaT v0 ins = .ok r) :
+    Chain (fun v _ o => Linked v o.trace o.volume ∧ (∀ x ∈ o.trace, 0 < x.acc.sub) ∧
+        (o.trace.map (·.acc.sub)).sum = deltaT ∧ o.outflow * deltaT = released o.trace) v0 ins r.outs := by
+  obtain ⟨tags, hS, -, -⟩ := run_ok _ _ _ _ _ _ _ _ h
+  refine (steps_chain t true fo fi deltaT (fun _ => True) _ ?_ ins v0 [] _ _ _ trivial hS).1
+  intro v tg i v' tg' o _ hs
+  obtain ⟨rainfall, pet, inflow, demand⟩ := i
+  obtain ⟨r', hO, e, e2, -⟩ := step_ok _ _ _ _ _ _ _ _ _ _ _ _ _ _ hs
+  obtain ⟨a, b, c⟩ := step_trace_tie _ _ _ _ _ _ _ _ _ _ _ _ _ hdt hs
+  exact ⟨⟨a, b, step_sub_steps_sum _ _ _ _ _ _ _ _ _ _ _ _ _ hdt.le hs, c⟩, by rw [e, e2], trivial⟩
+
+/-- **reported_outflow_between** (corollary of `release_between`, `spill_only_above_full` and `trace_tie` on the REPORTED
+series). If every table evaluation returns, the minimum-release curve never evaluates below `m`, the maximum-release curve
+never above `M`, the curves are ordered where evaluated and the spill capacity `maxSpill` is non-negative, then in every timestep
+of a successful run `m ≤ outflow ≤ max M (2·maxSpill)` (the over-topping ratio is capped at 2), and `outflow ≤ M` in a timestep
+without spill. -/
+theorem reported_outflow_between (t : Tables ℝ) (ht : Total t) (fo fi : Nat) (deltaT v0 : ℝ) (ins : List (StepIn ℝ))
+    (r : RunOut ℝ) (hdt : 0 < deltaT) (hS : 0 ≤ t.maxSpill) (m M : ℝ)
+    (hmin : ∀ v y, cappedPiecewise t v t.minRelease = .ok y → m ≤ y)
+    (hmax : ∀ v y, cappedPiecewise t v t.maxRelease = .ok y → y ≤ M)
+    (hord : ∀ v y₁ y₂, cappedPiecewise t v t.minRelease = .ok y₁ → cappedPiecewise t v t.maxRelease = .ok y₂ → y₁ ≤ y₂)
+    (h : run t true fo fi deltaT v0 ins = .ok r) :
+    Chain (fun _ _ o => m ≤ o.outflow ∧ o.outflow ≤ max M (2 * t.maxSpill) ∧
+        ((∀ x ∈ o.trace, x.excess = 0) → o.outflow ≤ M)) v0 ins r.outs := by
+  obtain ⟨tags, hS', -, -⟩ := run_ok _ _ _ _ _ _ _ _ h
+  refine (steps_chain t true fo fi deltaT (fun _ => True) _ ?_ ins v0 [] _ _ _ trivial hS').1
+  intro v tg i v' tg' o _ hs
+  obtain ⟨rainfall, pet, inflow, demand⟩ := i
+  obtain ⟨r', hO, e, e2, -⟩ := step_ok _ _ _ _ _ _ _ _ _ _ _ _ _ _ hs
+  exact ⟨step_reported_outflow_between t ht _ _ _ _ _ _ _ _ _ _ _ _ hdt hS m M hmin hmax hord hs, by rw [e, e2], trivial⟩
+
+/-- **reported_outflow_eq_demand.** In every timestep of a successful run whose demand lies between the two release curves
+wherever they are evaluated, and in which no sub-step spills, the REPORTED outflow equals the demand. -/
+theorem reported_outflow_eq_demand (t : Tables ℝ) (ht : Total t) (fo fi : Nat) (deltaT v0 : ℝ) (ins : List (StepIn ℝ))
+    (r : RunOut ℝ) (hdt : 0 < deltaT) (h : run t true fo fi deltaT v0 ins = .ok r) :
+    Chain (fun _ i o =>
+        (∀ v y, cappedPiecewise t v t.minRelease = .ok y → y ≤ i.2.2.2) →
+        (∀ v y, cappedPiecewise t v t.maxRelease = .ok y → i.2.2.2 ≤ y) →
+        (∀ x ∈ o.trace, x.excess = 0) → o.outflow = i.2.2.2) v0 ins r.outs := by
+  obtain ⟨tags, hS', -, -⟩ := run_ok _ _ _ _ _ _ _ _ h
+  refine (steps_chain t true fo fi deltaT (fun _ => True) _ ?_ ins v0 [] _ _ _ trivial hS').1
+  intro v tg i v' tg' o _ hs
+  obtain ⟨rainfall, pet, inflow, demand⟩ := i
+  obtain ⟨r', hO, e, e2, -⟩ := step_ok _ _ _ _ _ _ _ _ _ _ _ _ _ _ hs
+  exact ⟨fun hmin hmax h0 => step_reported_outflow_eq_demand t ht _ _ _ _ _ _ _ _ _ _ _ _ hdt hmin hmax hs h0,
+    by rw [e, e2], trivial⟩
+
 /-! ### termination -/
 
 theorem step_ne_fuel (t : Tables ℝ) (keep : Bool) (fo fi n k : Nat) (deltaT : ℝ)
@@ -436,6 +687,177 @@ theorem terminates_exists (t : Tables ℝ) (keep : Bool) (deltaT : ℝ) :
   have h2 : (k:ℝ) ≤ 2 ^ k := by exact_mod_cast (Nat.lt_two_pow_self (n := k)).le
   exact terminates t keep fo fi k k deltaT h1 (by linarith) hfo hfi v0 ins
 
+/-! ### when does a run return? (no panic)
+
+Every theorem above is about runs that return `.ok`. The code does NOT always return: its sub-step controller ends the process
+(`panic("testVol < 0.0 and subtimestep <= MIN_TIMESTEP_SECONDS…")`) when a trial volume is negative and the sub-step is at its
+6 s floor — it does not limit the release or the evaporation to the water present. So "V ≥ 0" holds for runs that return
+because the run does not return otherwise. The theorems of this section say when a run returns:
+`run_ok_of` (abstract condition `Safe`: the two negative-volume tests pass for every sub-step of at most 6 s at every non-negative
+volume), and its instances `run_ok_of_release_limited` (the release rule never releases in 6 s more than the water present, and
+the surface flux never outweighs the inflow) and `run_ok_of_net_gain` (the reservoir never loses water).
+`draw_down_panics` is a concrete table and input INSIDE the property's quantifier on which the model returns `.error "other"`. -/
+
+/-- the net surface flux (m/s) of a timestep, as the code computes it -/
+noncomputable def netFluxOf (deltaT : ℝ) (i : StepIn ℝ) : ℝ := (i.1 / deltaT - i.2.1 / deltaT) * mmToM
+
+/-- **6 s safety of a timestep's inputs**: at every non-negative volume the two "trial volume negative" tests of the sub-step
+controller pass for every sub-step of at most 6 s (`SafeAt`, OW/Proofs/StorageNoPanic.lean) -/
+def Safe (t : Tables ℝ) (deltaT : ℝ) (i : StepIn ℝ) : Prop :=
+  ∀ v est, 0 ≤ v → releaseRate t i.2.2.2 v = .ok est → SafeAt t i.2.2.1 i.2.2.2 (netFluxOf deltaT i) v est
+
+theorem step_err_fuel (t : Tables ℝ) (ht : Total t) (hfull : 0 ≤ t.volCurveMax) (keep : Bool) (fo fi : Nat)
+    (deltaT volume : ℝ) (hdt : 0 < deltaT) (hv : 0 ≤ volume) (tags : List String) (i : StepIn ℝ) (hsafe : Safe t deltaT i)
+    (e : String) (h : step t keep fo fi deltaT volume tags i = .error e) : e = "fuel" := by
+  obtain ⟨rainfall, pet, inflow, demand⟩ := i
+  unfold step at h
+  simp only [bind, Except.bind, zero_lit] at h
+  cases hO : outer t keep fi inflow demand (rainfall / deltaT) (pet / deltaT)
+          ((rainfall / deltaT - pet / deltaT) * mmToM) fo (loop0 deltaT volume tags) with
+  | error e' =>
+    have hO' := hO
+    simp only [loop0] at hO; rw [hO] at h
+    simp only [Except.error.injEq] at h
+    subst h
+    exact outer_err_fuel t ht hfull keep fi inflow demand _ _ _ hsafe fo (loop0 deltaT volume tags) _
+      (by simpa [loop0] using hv) (by simpa [loop0] using hdt) hO'
+  | ok r =>
+    simp only [loop0] at hO; rw [hO] at h
+    cases h
+
+theorem steps_err_fuel (t : Tables ℝ) (ht : Total t) (hfull : 0 ≤ t.volCurveMax) (keep : Bool) (fo fi : Nat)
+    (deltaT : ℝ) (hdt : 0 < deltaT) :
+    ∀ (ins : List (StepIn ℝ)) (v : ℝ) (tags : List String) (e : String), 0 ≤ v → (∀ i ∈ ins, Safe t deltaT i) →
+      steps t keep fo fi deltaT v tags ins = .error e → e = "fuel" := by
+  intro ins
+  induction ins with
+  | nil => intro v tags e _ _ h; simp only [steps, pure, Except.pure] at h; cases h
+  | cons i rest ih =>
+    intro v tags e hv hsafe h
+    simp only [steps, bind, Except.bind] at h
+    cases hS : step t keep fo fi deltaT v tags i with
+    | error e' =>
+      rw [hS] at h
+      simp only [Except.error.injEq] at h
+      subst h
+      exact step_err_fuel t ht hfull keep fo fi deltaT v hdt hv tags i (hsafe i (List.mem_cons_self ..)) _ hS
+    | ok res =>
+      obtain ⟨v1, tg1, o⟩ := res
+      rw [hS] at h; simp only at h
+      obtain ⟨rainfall, pet, inflow, demand⟩ := i
+      obtain ⟨a, b⟩ := step_volume_nonneg _ _ _ _ _ _ _ _ _ _ _ _ _ _ hfull hv hS
+      cases hT : steps t keep fo fi deltaT v1 tg1 rest with
+      | error e' =>
+        rw [hT] at h
+        simp only [Except.error.injEq] at h
+        subst h
+        exact ih v1 tg1 _ (by rw [b]; exact a) (fun j hj => hsafe j (List.mem_cons_of_mem _ hj)) hT
+      | ok res2 =>
+        rw [hT] at h
+        simp only [pure, Except.pure] at h
+        cases h
+
+/-- Under `Total`, a non-negative full-supply and initial volume, Δt > 0 and `Safe` inputs, a run can only fail by running
+out of fuel. -/
+theorem run_err_fuel (t : Tables ℝ) (ht : Total t) (hfull : 0 ≤ t.volCurveMax) (keep : Bool) (fo fi : Nat)
+    (deltaT v0 : ℝ) (hdt : 0 < deltaT) (hv0 : 0 ≤ v0) (ins : List (StepIn ℝ)) (hsafe : ∀ i ∈ ins, Safe t deltaT i)
+    (e : String) (h : run t keep fo fi deltaT v0 ins = .error e) : e = "fuel" := by
+  unfold run at h
+  simp only [bind, Except.bind] at h
+  cases hS : steps t keep fo fi deltaT v0 [] ins with
+  | error e' =>
+    rw [hS] at h
+    simp only [Except.error.injEq] at h
+    subst h
+    exact steps_err_fuel t ht hfull keep fo fi deltaT hdt ins v0 [] _ hv0 hsafe hS
+  | ok res =>
+    obtain ⟨v, tags, outs⟩ := res
+    rw [hS] at h; simp only at h
+    obtain ⟨l, hl⟩ := ht.levels v
+    obtain ⟨a, ha⟩ := ht.areas v
+    rw [hl] at h; simp only at h
+    rw [ha] at h
+    simp only [pure, Except.pure] at h
+    cases h
+
+/-- **run_ok_of (no panic).** A run RETURNS — no panic of the code, no fuel exhaustion — when
+* every table evaluation returns (`Total`; by `total_of_wellFormed`: at least two knots, the curve ends read from the volume
+  table, value tables at least as long as the volume table),
+* the full-supply volume and the initial volume are non-negative and `0 < Δt ≤ 6·k`, `Δt ≤ 6·2ⁿ` with fuel `> k` / `> n`, and
+* every timestep's inputs are `Safe`: at every non-negative volume the two negative-volume tests pass for sub-steps ≤ 6 s. -/
+theorem run_ok_of (t : Tables ℝ) (ht : Total t) (hfull : 0 ≤ t.volCurveMax) (keep : Bool) (fo fi n k : Nat) (deltaT : ℝ)
+    (hdt : 0 < deltaT) (hk : deltaT ≤ 6 * k) (hn : deltaT ≤ 6 * 2 ^ n) (hfo : k + 1 ≤ fo) (hfi : n + 1 ≤ fi)
+    (v0 : ℝ) (hv0 : 0 ≤ v0) (ins : List (StepIn ℝ)) (hsafe : ∀ i ∈ ins, Safe t deltaT i) :
+    ∃ r, run t keep fo fi deltaT v0 ins = .ok r := by
+  cases h : run t keep fo fi deltaT v0 ins with
+  | ok r => exact ⟨r, rfl⟩
+  | error e =>
+    have := run_err_fuel t ht hfull keep fo fi deltaT v0 hdt hv0 ins hsafe e h
+    subst this
+    exact absurd h (terminates t keep fo fi n k deltaT hk hn hfo hfi v0 ins)
+
+/-- `run_ok_of` with the fuel of the compiled driver, for `0 < Δt ≤ 86400` -/
+theorem run_ok_of_driver_fuel (t : Tables ℝ) (ht : Total t) (hfull : 0 ≤ t.volCurveMax) (keep : Bool) (deltaT : ℝ)
+    (hdt : 0 < deltaT) (hdt' : deltaT ≤ 86400) (v0 : ℝ) (hv0 : 0 ≤ v0) (ins : List (StepIn ℝ))
+    (hsafe : ∀ i ∈ ins, Safe t deltaT i) :
+    ∃ r, run t keep fuelOuter fuelInner deltaT v0 ins = .ok r := by
+  apply run_ok_of t ht hfull keep fuelOuter fuelInner 14 14400 deltaT hdt
+  · norm_num; linarith
+  · norm_num; linarith
+  · decide
+  · decide
+  · exact hv0
+  · exact hsafe
+
+/-- **run_ok_of_release_limited (no panic while drawing down).** The run returns when, for every timestep, the release rule
+never releases in 6 s more than the water present (`0 ≤ q` and `q·6 ≤ max u 0` for the release `q` at any volume `u` — a
+maximum-release curve that goes to zero at the empty storage at least as fast as `V / 6 s`, and a minimum-release curve below it)
+and the surface flux never outweighs the inflow (`0 ≤ inflow + netFlux·a` for every value `a` of the area table: rain ≥
+evaporation, or no evaporation, or enough inflow). Both conditions fail on the panicking inputs of `draw_down_panics`. -/
+theorem run_ok_of_release_limited (t : Tables ℝ) (ht : Total t) (hfull : 0 ≤ t.volCurveMax) (keep : Bool) (fo fi n k : Nat)
+    (deltaT : ℝ) (hdt : 0 < deltaT) (hk : deltaT ≤ 6 * k) (hn : deltaT ≤ 6 * 2 ^ n) (hfo : k + 1 ≤ fo) (hfi : n + 1 ≤ fi)
+    (v0 : ℝ) (hv0 : 0 ≤ v0) (ins : List (StepIn ℝ))
+    (hq : ∀ i ∈ ins, ∀ u q, releaseRate t i.2.2.2 u = .ok q → 0 ≤ q ∧ q * 6 ≤ max u 0)
+    (ha : ∀ i ∈ ins, ∀ a, AreaVal t a → 0 ≤ i.2.2.1 + netFluxOf deltaT i * a) :
+    ∃ r, run t keep fo fi deltaT v0 ins = .ok r :=
+  run_ok_of t ht hfull keep fo fi n k deltaT hdt hk hn hfo hfi v0 hv0 ins
+    (fun i hi => safeAt_of_release_limited t i.2.2.1 i.2.2.2 (netFluxOf deltaT i) (hq i hi) (ha i hi))
+
+/-- **run_ok_of_net_gain (no panic while filling).** The run returns when in every timestep the net rate
+`inflow − q + netFlux·a` is non-negative for every value `q` of the release rule and `a` of the area table. -/
+theorem run_ok_of_net_gain (t : Tables ℝ) (ht : Total t) (hfull : 0 ≤ t.volCurveMax) (keep : Bool) (fo fi n k : Nat)
+    (deltaT : ℝ) (hdt : 0 < deltaT) (hk : deltaT ≤ 6 * k) (hn : deltaT ≤ 6 * 2 ^ n) (hfo : k + 1 ≤ fo) (hfi : n + 1 ≤ fi)
+    (v0 : ℝ) (hv0 : 0 ≤ v0) (ins : List (StepIn ℝ))
+    (hg : ∀ i ∈ ins, ∀ q a, RelVal t i.2.2.2 q → AreaVal t a → 0 ≤ i.2.2.1 - q + netFluxOf deltaT i * a) :
+    ∃ r, run t keep fo fi deltaT v0 ins = .ok r :=
+  run_ok_of t ht hfull keep fo fi n k deltaT hdt hk hn hfo hfi v0 hv0 ins
+    (fun i hi => safeAt_of_net_gain t i.2.2.1 i.2.2.2 (netFluxOf deltaT i) (hg i hi))
+
+/-- **draw_down_panics (the code ends the process instead of limiting the loss).** Whenever, at the volume a timestep starts
+from, the net rate `inflow − release + netFlux·area` is negative and drains more than the volume within `min Δt 6` seconds, the
+model — and by the bit-exact correspondence the code — does not return: `.error "other"` is Go's
+`panic("testVol < 0.0 and subtimestep <= MIN_TIMESTEP_SECONDS")`. No monotonicity or other table property prevents this: it is
+reached by drawing a reservoir down to empty with a release curve that does not vanish at the empty storage, and by evaporation
+from a lowest knot with positive area. -/
+theorem draw_down_panics (t : Tables ℝ) (keep : Bool) (fo fi n : Nat) (deltaT volume : ℝ) (tags : List String)
+    (rainfall pet inflow demand est area : ℝ) (hdt : 0 < deltaT) (hn : deltaT ≤ 6 * 2 ^ n) (hfi : n + 1 ≤ fi) (hfo : 1 ≤ fo)
+    (hest : releaseRate t demand volume = .ok est) (harea : cappedPiecewise t volume t.areas = .ok area)
+    (hrate : inflow - est + (rainfall / deltaT - pet / deltaT) * mmToM * area < 0)
+    (hneg : volume + (inflow - est + (rainfall / deltaT - pet / deltaT) * mmToM * area) * min deltaT 6 < 0) :
+    step t keep fo fi deltaT volume tags (rainfall, pet, inflow, demand) = .error "other" := by
+  obtain ⟨f, rfl⟩ : ∃ f, fo = f + 1 := ⟨fo - 1, by omega⟩
+  have m : min deltaT (deltaT * 2) = deltaT := min_eq_left (by linarith)
+  have hT := trial_panics t inflow demand ((rainfall / deltaT - pet / deltaT) * mmToM) volume est area (min deltaT 6)
+    (min_le_right _ _) (fun s hs => by
+      have := mul_le_mul_of_nonpos_left hs hrate.le
+      linarith) n fi deltaT tags (min_le_left _ _) hn hfi
+  simp only [step, outer, outerBody, bind, Except.bind, zero_lit, two_lit, RealNum.gmin_eq]
+  rw [if_pos hdt, hest]
+  simp only
+  rw [harea]
+  simp only
+  rw [m, hT]
+
 /-! ### non-vacuity: the theorems instantiated on a concrete successful run
 (`OW/Proofs/StorageExample.lean`: two-knot table, one timestep of 1 s, inflow 1 m³/s into the empty storage) -/
 
@@ -456,5 +878,89 @@ example : run tEx true fuelOuter fuelInner 1 0 [(0, 0, 1, 0)] ≠ .error "fuel" 
 /-- a panic of the code is an error of the model, not a default value: with an empty volume table the three reads at the
 top of `storageWaterBalance` fail -/
 example : mkTables ([] : List ℝ) [] [] [] [] = .error "index-out-of-range" := rfl
+
+
+/-! ### non-vacuity: a run with a HALVED sub-step and a SPILL (`OW/Proofs/StorageExample2.lean`)
+
+Table read through its capped ends (volumes 100 / 200 m³, spill capacity 4.4 m³/s, maximum release 10 m³/s above full supply,
+0 below the curve), one timestep of 100 s from 1000 m³ with demand 10: the 100 s trial is rejected and halved; sub-step 1
+(50 s, release 10) takes the spill branch with zero spill, sub-step 2 (50 s, force-accepted at the 60 s floor, release 5)
+spills 25 m³. Reported: volume 225, outflow 7.75. -/
+
+open OW.Proofs.StorageExample2 in
+/-- `trace_tie` on that run: 1000 → 500 → 225 is chained, 50 + 50 = 100, and 7.75·100 = (10·50 + 0) + (5·50 + 25) -/
+example : Chain (fun v _ o => Linked v o.trace o.volume ∧ (∀ x ∈ o.trace, 0 < x.acc.sub) ∧
+    (o.trace.map (·.acc.sub)).sum = 100 ∧ o.outflow * 100 = released o.trace) 1000 [(0, 0, 0, 10)] [outHS] :=
+  trace_tie tHS 3 2 100 1000 _ _ (by norm_num) runHS
+
+open OW.Proofs.StorageExample2 in
+/-- the second sub-step of that run spills: `excess = 25 ≠ 0`, so `spill_only_above_full` gives `200 < 250` and `200 ≤ 225` -/
+example : (25:ℝ) ≠ 0 ∧ tHS.volCurveMax < subB.volUpdated ∧ tHS.volCurveMax ≤ subB.volAfter := by
+  have h := spill_only_above_full tHS 3 2 100 1000 _ _ runHS
+  have hB := (h.1 subB (show subB ∈ [subA, subB] from List.mem_cons_of_mem _ (List.mem_cons_self ..))).2.2
+  have e : subB.excess = 25 := rfl
+  rw [e] at hB
+  exact ⟨by norm_num, hB (by norm_num)⟩
+
+open OW.Proofs.StorageExample2 in
+/-- the first sub-step of that run was halved (accepted length 50 of a 100 s timestep, tag `halve`) and `release_between` applies
+to it with both curve pairs evaluated above full supply (4.4 ≤ 10): its average release is the demand 10 -/
+example : accA.sub = 50 ∧ "halve" ∈ accA.tags ∧ subA.acc.avgOutflow = 10 := by
+  have h := release_between tHS 3 2 100 1000 _ _ runHS
+  have hA := h.1 subA (show subA ∈ [subA, subB] from List.mem_cons_self ..) 4.4 10 4.4 10
+    (by rw [show subA.volBefore = (1000:ℝ) from rfl, capHi _ _ (by norm_num)]; rfl)
+    (by rw [show subA.volBefore = (1000:ℝ) from rfl, capHi _ _ (by norm_num)]; rfl)
+    (by rw [show subA.acc.trialVol = (500:ℝ) from rfl, capHi _ _ (by norm_num)]; rfl)
+    (by rw [show subA.acc.trialVol = (500:ℝ) from rfl, capHi _ _ (by norm_num)]; rfl)
+    (by norm_num) (by norm_num)
+  exact ⟨rfl, by decide, hA.2.2 (by norm_num) (by norm_num) (by norm_num) (by norm_num)⟩
+
+open OW.Proofs.StorageExample2 in
+/-- `reported_outflow_between` on that run: every evaluation of the minimum-release curve of `tHS` is ≥ 0, of the maximum-release
+curve ≤ 10, the curves are ordered and the spill capacity is 4.4 ≥ 0 — so the REPORTED outflow (7.75) lies in [0, max 10 8.8] -/
+example : Chain (fun _ _ o => (0:ℝ) ≤ o.outflow ∧ o.outflow ≤ max 10 (2 * tHS.maxSpill) ∧
+    ((∀ x ∈ o.trace, x.excess = 0) → o.outflow ≤ 10)) 1000 [(0, 0, 0, 10)] [outHS] :=
+  reported_outflow_between tHS totalHS 3 2 100 1000 _ _ (by norm_num) (show (0:ℝ) ≤ 4.4 by norm_num) 0 10 minHS maxHS ordHS runHS
+
+open OW.Proofs.StorageExample2 in
+/-- `run_ok_of_release_limited` on the same table and inputs: the table is well-formed (`Total`), the release rule for demand 10
+releases nothing below the curve and at most 10 m³/s from 100 m³ on (10·6 ≤ 100), and there is no surface flux — so the run
+returns for every fuel above the bounds (here 18 / 6 for Δt = 100 s) -/
+example : ∃ r, run tHS true 18 6 100 1000 [(0, 0, 0, 10)] = .ok r := by
+  have hq : ∀ u q, releaseRate tHS 10 u = .ok q → 0 ≤ q ∧ q * 6 ≤ max u 0 := by
+    intro u q h
+    rcases lt_or_ge u 100 with c | c
+    · rw [relLo u c] at h
+      cases h
+      exact ⟨le_refl _, by rw [zero_mul]; exact le_max_right _ _⟩
+    · obtain ⟨a, b⟩ := releaseRate_range tHS totalHS 0 10 minHS maxHS ordHS 10 u q h
+      exact ⟨a, by have := le_max_left u 0; linarith⟩
+  refine run_ok_of_release_limited tHS totalHS (show (0:ℝ) ≤ 200 by norm_num) true 18 6 5 17 100 (by norm_num) (by norm_num)
+    (by norm_num) (by decide) (by decide) 1000 (by norm_num) _ ?_ ?_
+  · intro i hi
+    rw [List.mem_singleton] at hi
+    subst hi
+    exact hq
+  · intro i hi a _
+    rw [List.mem_singleton] at hi
+    subst hi
+    unfold netFluxOf
+    norm_num
+
+/-! ### non-vacuity of `draw_down_panics`: two monotone tables inside the property's quantifier on which the run does not return -/
+
+open OW.Proofs.StorageExample2 in
+/-- flat maximum release 5 / 5 m³/s, 3 m³ left, demand 1 m³/s, one day: the release rule still releases 1 m³/s, 6 s of it exceed
+the 3 m³ present, the sub-step controller panics at its floor -/
+example : step tP false 1 15 86400 3 [] (0, 0, 0, 1) = .error "other" :=
+  draw_down_panics tP false 1 15 14 86400 3 [] 0 0 0 1 1 _ (by norm_num) (by norm_num) (by decide) (by decide) relP areaP
+    (by norm_num) (by rw [min6]; norm_num)
+
+open OW.Proofs.StorageExample2 in
+/-- area 100 m² at the empty storage, empty reservoir, PET 5 mm/day, no inflow: evaporation from the empty storage makes every
+trial volume negative, the sub-step controller panics at its floor -/
+example : step tQ false 1 15 86400 0 [] (0, 5, 0, 0) = .error "other" :=
+  draw_down_panics tQ false 1 15 14 86400 0 [] 0 5 0 0 0 _ (by norm_num) (by norm_num) (by decide) (by decide) relQ areaQ
+    (by rw [mmToM_eq]; norm_num) (by rw [min6, mmToM_eq]; norm_num)
 
 end OW.Props.C13
